@@ -5,6 +5,45 @@ import random
 from . import core, scripts, sel as S, worldcheck as W
 
 
+QUALIFY = {"c": "T", "p": "P"}
+
+
+def qualified(node):
+    """the selector with every named capture of a tagged variable restricted to that tag (c -> c:@T, p -> p:@P);
+    None when that changes nothing"""
+    changed = [False]
+
+    def q(n):
+        caps = []
+        for c in n["caps"]:
+            if c["name"] in QUALIFY and not c["cat"]:
+                c = dict(c, cat=QUALIFY[c["name"]])
+                changed[0] = True
+            caps.append(c)
+        return {"fn": n["fn"], "fcat": n.get("fcat", ""), "caps": caps, "kids": [q(k) for k in n["kids"]]}
+    out = q(node)
+    return out if changed[0] else None
+
+
+def add_prehistory(rng, case, mode):
+    """history dimension: in probing() mode the functions are instrumented selectively, per capture set; half of the
+    cases are preceded by an earlier probe lifetime whose selectors are the tag-qualified variants of the case's own"""
+    if mode != "probe" or rng.random() < 0.5:
+        return case
+    pre = [S.sel_str(q) for q in (qualified(h["sel"]) for h in case["handlers"]) if q is not None]
+    if pre:
+        case["pre"] = pre
+        # make the history matter: wherever c gets its annotated binding, it also gets a plain one (no tag) next to it
+        script, k = [], 0
+        for op in case["script"]:
+            script.append(op)
+            if op[0] == "ann_c" and rng.random() < 0.7:
+                k += 1
+                script.append(["bind_c", 900 + k])
+        case["script"] = script
+    return case
+
+
 def run_world(out, tier, seed, gen_case, plan, rule, salt, sample_filter=None, features_of=None):
     """plan: {tier: [(mode, n_cases)]}; gen_case(rng, id, mode) -> case."""
     rng = random.Random(seed * 7919 + salt)
@@ -16,7 +55,7 @@ def run_world(out, tier, seed, gen_case, plan, rule, salt, sample_filter=None, f
         left = n
         while left > 0:
             k = min(per, left)
-            batches.append((mode, [gen_case(rng, cid + j, mode) for j in range(k)]))
+            batches.append((mode, [add_prehistory(rng, gen_case(rng, cid + j, mode), mode) for j in range(k)]))
             cid += k
             left -= k
     all_cases = {c["id"]: (m, c) for m, cs in batches for c in cs}
